@@ -115,9 +115,9 @@ def match(ev, f, mode):
                 ok = False
                 for x in v:
                     try:
-                        if not isinstance(x, bool) and int(x) == ev["kind"]:
+                        if int(x) == ev["kind"]:  # "1", 1.0, true: coercion is not specified
                             ok = True
-                    except (TypeError, ValueError):
+                    except (TypeError, ValueError, OverflowError):
                         pass
                 if not ok:
                     return False
@@ -132,13 +132,14 @@ def match(ev, f, mode):
             else:
                 try:
                     iv = int(v)
-                except (TypeError, ValueError):
+                except (TypeError, ValueError, OverflowError):
                     continue  # malformed bound: relay may ignore or reject
                 if k == "since" and not ev["created_at"] >= iv:
                     return False
                 if k == "until" and not ev["created_at"] <= iv:
                     return False
-        elif isinstance(k, str) and k.startswith("#") and len(k) >= 2:
+        elif isinstance(k, str) and k.startswith("#") and len(k) == 2:
+            # only one-character names are queryable; longer '#..' keys are unknown keys
             name = k[1:]
             if not isinstance(v, list):
                 if must:
@@ -146,6 +147,8 @@ def match(ev, f, mode):
                 continue
             ok = False
             for t in _tags(ev):
+                if t[0] == name and len(t) == 1 and not must and "" in v:
+                    ok = True  # a bare tag has no value; treating it as "" is tolerated
                 if t[0] == name and len(t) > 1:
                     if isinstance(t[1], str):
                         if t[1] in v:
